@@ -24,6 +24,8 @@ pub enum Rhs {
     FreshConst,
     /// build `node.map(g).map(g')` inside the closure (two scope-created nodes)
     FreshChain(usize),
+    /// like FreshMap, but the closure also builds a second node and drops it before returning
+    FreshGarbage(usize),
 }
 
 #[derive(Clone, Debug)]
@@ -185,6 +187,7 @@ pub struct ObsSlot {
 pub enum Action {
     Stabilise,
     Write(usize),
+    WriteSame(usize),
     WriteSnd(usize),
     WriteBoth(usize),
     Observe(usize),
@@ -217,6 +220,7 @@ pub struct Ops {
     pub state_unsubscribe: bool,
     pub observe_smuggled: bool,
     pub subscribe_smuggled_only: bool,
+    pub write_same: bool,
 }
 
 #[derive(Clone, Default)]
@@ -230,6 +234,7 @@ pub struct Monitors {
     pub c09: bool,
     pub c10: bool,
     pub c11: bool,
+    pub c06: bool,
 }
 
 #[derive(Clone)]
@@ -243,6 +248,10 @@ pub struct WorldCfg {
     pub pinned: Vec<usize>,
     pub max_obs: usize,
     pub max_subs: usize,
+    /// nodes observed at construction by never-dropped observers (C06: everything stays necessary)
+    pub observe_at_start: Vec<usize>,
+    /// nodes whose cutoff kind is a symbolic choice made before the history starts
+    pub cut_nodes: Vec<usize>,
     pub len: usize,
     pub ops: Ops,
     pub mon: Monitors,
@@ -260,6 +269,24 @@ pub struct World {
     pub dirty: bool,
     pub late_made: Vec<bool>,
     pub stabilised_once: bool,
+    /// C06 reference: engine-view value of every node, pair vars separately
+    pub c06_val: BTreeMap<usize, SV>,
+    pub c06_pval: BTreeMap<usize, Pair>,
+    pub written: BTreeSet<usize>,
+}
+
+thread_local! {
+    static CUT_SH: RefCell<Option<Rc<Shared>>> = RefCell::new(None);
+}
+
+/// `Cutoff::Fn` takes a plain function pointer: one instance per node index.
+fn cut_fn<const I: usize>(a: &SV, b: &SV) -> bool {
+    CUT_SH.with(|c| {
+        if let Some(sh) = c.borrow().as_ref() {
+            sh.invoke(NodeKey::Cutoff(I), vec![a.clone(), b.clone()]);
+        }
+    });
+    decide_pred(8 + I as u16, &[a.clone(), b.clone()])
 }
 
 const RHS_FN_BASE: u16 = 16;
@@ -294,9 +321,23 @@ impl World {
             dirty: true,
             late_made: vec![false; cfg.late_specs.len()],
             stabilised_once: false,
+            c06_val: BTreeMap::new(),
+            c06_pval: BTreeMap::new(),
+            written: BTreeSet::new(),
         };
         for s in cfg.specs.clone() {
             w.build(s);
+        }
+        CUT_SH.with(|c| *c.borrow_mut() = Some(w.sh.clone()));
+        for n in cfg.cut_nodes.clone() {
+            let kinds = [CutKind::Default, CutKind::Never, CutKind::Always, CutKind::Fn, CutKind::Boxed];
+            let k = kinds[choose(kinds.len())];
+            w.set_cutoff(n, k);
+            op_log(format!("SetCutoff({n}, {k:?})"));
+        }
+        for n in cfg.observe_at_start.clone() {
+            let o = w.s_handle(n).unwrap().observe();
+            w.push_observer(o, n, true, None);
         }
         w
     }
@@ -316,7 +357,7 @@ impl World {
 
     fn rhs_handle(&self, r: &Rhs) -> Option<Incr<SV>> {
         match r {
-            Rhs::Node(j) | Rhs::FreshMap(j) | Rhs::FreshMapCap(j) | Rhs::FreshChain(j) => self.s_handle(*j),
+            Rhs::Node(j) | Rhs::FreshMap(j) | Rhs::FreshMapCap(j) | Rhs::FreshChain(j) | Rhs::FreshGarbage(j) => self.s_handle(*j),
             Rhs::FreshConst => None,
         }
     }
@@ -441,6 +482,212 @@ impl World {
         i
     }
 
+    pub fn set_cutoff(&mut self, n: usize, k: CutKind) {
+        let h = self.s_handle(n).unwrap();
+        let sh = self.sh.clone();
+        match k {
+            CutKind::Default => h.set_cutoff(Cutoff::PartialEq),
+            CutKind::Never => h.set_cutoff(Cutoff::Never),
+            CutKind::Always => h.set_cutoff(Cutoff::Always),
+            CutKind::Fn => h.set_cutoff(Cutoff::Fn(match n {
+                0 => cut_fn::<0>,
+                1 => cut_fn::<1>,
+                2 => cut_fn::<2>,
+                3 => cut_fn::<3>,
+                4 => cut_fn::<4>,
+                5 => cut_fn::<5>,
+                6 => cut_fn::<6>,
+                _ => cut_fn::<7>,
+            })),
+            CutKind::Boxed => h.set_cutoff_fn_boxed(move |a: &SV, b: &SV| {
+                sh.invoke(NodeKey::Cutoff(n), vec![a.clone(), b.clone()]);
+                decide_pred(8 + n as u16, &[a.clone(), b.clone()])
+            }),
+        }
+        self.nodes[n].cutoff = k;
+    }
+
+    /// does node `i`'s cutoff suppress the step old -> new? (reference side)
+    fn c06_cut(&self, i: usize, old: &SV, new: &SV, cut_log: &mut Vec<Inv>, round: u32) -> bool {
+        match self.nodes[i].cutoff {
+            CutKind::Default => exec::decide(F::eq(old, new)),
+            CutKind::Never => false,
+            CutKind::Always => true,
+            CutKind::Fn | CutKind::Boxed => {
+                // the cutoff function must have been consulted with (old, new), in that order
+                let pos = cut_log.iter().position(|inv| inv.key == NodeKey::Cutoff(i));
+                match pos {
+                    None => violation("C06/cutoff-function-not-consulted", format!("node {i} produced a new result in stabilise #{round} but its cutoff function was not called")),
+                    Some(p) => {
+                        let inv = cut_log.remove(p);
+                        let (a2, o2, n2) = (inv.args.clone(), old.clone(), new.clone());
+                        require("C06/cutoff-arguments", F::and(vec![F::eq(&inv.args[0], old), F::eq(&inv.args[1], new)]), move || format!("cutoff of node {i} was called with {a2:?}, expected (old, new) = ({o2:?}, {n2:?})"));
+                    }
+                }
+                decide_pred(8 + i as u16, &[old.clone(), new.clone()])
+            }
+        }
+    }
+
+    fn c06_after_stabilise(&mut self, round: u32, log: &[Inv]) {
+        let first = round == 1;
+        let n = self.nodes.len();
+        let mut ns = vec![false; n];
+        let mut cut_log: Vec<Inv> = log.iter().filter(|i| matches!(i.key, NodeKey::Cutoff(_))).cloned().collect();
+        for i in 0..n {
+            let f = i as u16;
+            let spec = self.nodes[i].spec.clone();
+            let kind = spec.kind_name();
+            // expected evaluation of node i in this stabilise: Some(argument lists) or None
+            let mut expect_inv: Option<Vec<Vec<SV>>> = None;
+            let mut has_fn = true;
+            match &spec {
+                Spec::Var => {
+                    has_fn = false;
+                    if first || self.written.contains(&i) {
+                        let new = self.vars[&i].1.clone();
+                        let old = self.c06_val.get(&i).cloned();
+                        ns[i] = match &old {
+                            None => true,
+                            Some(o) => !self.c06_cut(i, o, &new, &mut cut_log, round),
+                        };
+                        self.c06_val.insert(i, new);
+                    }
+                }
+                Spec::PVar => {
+                    has_fn = false;
+                    if first || self.written.contains(&i) {
+                        let new = self.pvars[&i].1.clone();
+                        let old = self.c06_pval.get(&i).cloned();
+                        ns[i] = match &old {
+                            None => true,
+                            Some(o) => !exec::decide(F::and(vec![F::eq(&o.0, &new.0), F::eq(&o.1, &new.1)])),
+                        };
+                        self.c06_pval.insert(i, new);
+                    }
+                }
+                Spec::Const => {
+                    has_fn = false;
+                    if first {
+                        ns[i] = true;
+                        self.c06_val.insert(i, self.consts[&i].clone());
+                    }
+                }
+                Spec::Fst(p) => {
+                    has_fn = false;
+                    // a map_ref node stores nothing: it always shows the projection of its
+                    // input's latest value; its cutoff only gates propagation
+                    let new = self.c06_pval[p].0.clone();
+                    if first || ns[*p] {
+                        let old = self.c06_val.get(&i).cloned();
+                        ns[i] = match &old {
+                            None => true,
+                            Some(o) => !self.c06_cut(i, o, &new, &mut cut_log, round),
+                        };
+                    }
+                    self.c06_val.insert(i, new);
+                }
+                Spec::RefId(a) => {
+                    has_fn = false;
+                    let new = self.c06_val[a].clone();
+                    if first || ns[*a] {
+                        let old = self.c06_val.get(&i).cloned();
+                        ns[i] = match &old {
+                            None => true,
+                            Some(o) => !self.c06_cut(i, o, &new, &mut cut_log, round),
+                        };
+                    }
+                    self.c06_val.insert(i, new);
+                }
+                Spec::Map(_) | Spec::Map2(..) | Spec::Map3(..) | Spec::PMap(_) | Spec::MapWithOld(_) | Spec::Fold(_) | Spec::Zip(..) => {
+                    let ins = spec.inputs();
+                    let run = first || ins.iter().any(|j| ns[*j]);
+                    if run {
+                        let (calls, new) = match &spec {
+                            Spec::PMap(p) => {
+                                let a = vec![self.c06_pval[p].0.clone(), self.c06_pval[p].1.clone()];
+                                (vec![a.clone()], app(f, &a))
+                            }
+                            Spec::Fold(v) => {
+                                let mut acc = SV::lit(0);
+                                let mut calls = vec![];
+                                for j in v {
+                                    let x = self.c06_val[j].clone();
+                                    calls.push(vec![acc.clone(), x.clone()]);
+                                    acc = app(f, &[acc, x]);
+                                }
+                                (calls, acc)
+                            }
+                            _ => {
+                                let a: Vec<SV> = ins.iter().map(|j| self.c06_val[j].clone()).collect();
+                                (vec![a.clone()], app(f, &a))
+                            }
+                        };
+                        expect_inv = Some(calls);
+                        let old = self.c06_val.get(&i).cloned();
+                        ns[i] = match &old {
+                            None => true,
+                            Some(o) => {
+                                if matches!(spec, Spec::MapWithOld(_)) {
+                                    !exec::decide(F::eq(o, &new))
+                                } else {
+                                    !self.c06_cut(i, o, &new, &mut cut_log, round)
+                                }
+                            }
+                        };
+                        self.c06_val.insert(i, new);
+                    }
+                }
+                Spec::DependOn(..) | Spec::Bind { .. } => panic!("symx: C06 reference does not model {kind}"),
+            }
+            if ns[i] {
+                cover("cutoff-did-not-suppress");
+            } else if expect_inv.is_some() || (!has_fn && (first || self.written.contains(&i))) {
+                cover("cutoff-suppressed");
+                if self.nodes[i].cutoff == CutKind::Always {
+                    cover("always-cutoff-after-first-result");
+                }
+            }
+            if !has_fn {
+                continue;
+            }
+            let invs: Vec<&Inv> = log.iter().filter(|x| x.key == NodeKey::Main(i)).collect();
+            match &expect_inv {
+                None => {
+                    if !invs.is_empty() {
+                        violation(&format!("C06/reinvoked-without-unsuppressed-input/{kind}"), format!("node {i} ({kind}) ran in stabilise #{round} although none of its inputs produced an unsuppressed result"));
+                    }
+                }
+                Some(calls) => {
+                    if invs.is_empty() {
+                        violation(&format!("C06/change-lost/{kind}"), format!("node {i} ({kind}) did not run in stabilise #{round} although an input produced a result its cutoff did not suppress"));
+                    } else if invs.len() != calls.len() {
+                        violation(&format!("C06/evaluation-count/{kind}"), format!("node {i} ({kind}) made {} calls in stabilise #{round}, one evaluation is {}", invs.len(), calls.len()));
+                    } else {
+                        for (inv, exp) in invs.iter().zip(calls) {
+                            let conj: Vec<F> = inv.args.iter().zip(exp).map(|(a, e)| F::eq(a, e)).collect();
+                            let (a2, e2) = (inv.args.clone(), exp.clone());
+                            require(&format!("C06/arguments/{kind}"), F::and(conj), move || format!("node {i} ran on {a2:?}, its inputs hold {e2:?}"));
+                        }
+                    }
+                }
+            }
+        }
+        for inv in cut_log {
+            violation("C06/cutoff-function-consulted-unexpectedly", format!("{:?} called with {:?} in stabilise #{round}", inv.key, inv.args));
+        }
+        // observers show the engine-view values
+        let obs = self.obs.borrow();
+        for s in obs.iter() {
+            if s.st == OSt::InUse {
+                if let (Some(Ok(v)), Some(w)) = (&s.last, self.c06_val.get(&s.node)) {
+                    let (v2, w2, node) = (v.clone(), w.clone(), s.node);
+                    require("C06/observed-value", F::eq(v, w), move || format!("observer on node {node} returned {v2:?}, the last result of that node is {w2:?}"));
+                }
+            }
+        }
+    }
+
     // ------------------------------------------------------------------ reference evaluator
 
     /// Value of node `i` from scratch on the current variable values.
@@ -473,7 +720,7 @@ impl World {
                 let r = if take_then { then } else { els };
                 match r {
                     Rhs::Node(j) => self.eval(*j, memo),
-                    Rhs::FreshMap(j) => app(rhs_fn(i, take_then, 0), &[self.eval(*j, memo)]),
+                    Rhs::FreshMap(j) | Rhs::FreshGarbage(j) => app(rhs_fn(i, take_then, 0), &[self.eval(*j, memo)]),
                     Rhs::FreshMapCap(j) => app(rhs_fn(i, take_then, 0), &[l, self.eval(*j, memo)]),
                     Rhs::FreshConst => app(rhs_fn(i, take_then, 0), &[l]),
                     Rhs::FreshChain(j) => app(rhs_fn(i, take_then, 1), &[app(rhs_fn(i, take_then, 0), &[self.eval(*j, memo)])]),
@@ -515,7 +762,7 @@ impl World {
                 Spec::Bind { then, els, .. } => {
                     let r = if branch { then } else { els };
                     match r {
-                        Rhs::FreshMap(j) | Rhs::FreshMapCap(j) => Some(vec![vec![self.eval(*j, memo)]]),
+                        Rhs::FreshMap(j) | Rhs::FreshMapCap(j) | Rhs::FreshGarbage(j) => Some(vec![vec![self.eval(*j, memo)]]),
                         Rhs::FreshChain(j) => {
                             if pos == 0 {
                                 Some(vec![vec![self.eval(*j, memo)]])
@@ -545,7 +792,7 @@ impl World {
                     stack.push(*lhs);
                     if let Some(b) = branch(i) {
                         match if b { then } else { els } {
-                            Rhs::Node(j) | Rhs::FreshMap(j) | Rhs::FreshMapCap(j) | Rhs::FreshChain(j) => stack.push(*j),
+                            Rhs::Node(j) | Rhs::FreshMap(j) | Rhs::FreshMapCap(j) | Rhs::FreshChain(j) | Rhs::FreshGarbage(j) => stack.push(*j),
                             Rhs::FreshConst => {}
                         }
                     }
@@ -568,6 +815,9 @@ impl World {
         if o.write {
             for (i, _) in &self.vars {
                 v.push(Action::Write(*i));
+                if o.write_same {
+                    v.push(Action::WriteSame(*i));
+                }
             }
             for (i, _) in &self.pvars {
                 v.push(Action::WriteSnd(*i));
@@ -575,7 +825,7 @@ impl World {
             }
         }
         for n in &self.cfg.pinned {
-            if !obs.iter().any(|s| s.pinned && s.node == *n) {
+            if !obs.iter().any(|s| s.pinned && s.node == *n) && self.s_handle(*n).is_some() {
                 v.push(Action::Pin(*n));
             }
         }
@@ -665,6 +915,14 @@ impl World {
                 e.0.set(nv.clone());
                 e.1 = nv;
                 self.dirty = true;
+                self.written.insert(*i);
+            }
+            Action::WriteSame(i) => {
+                let e = self.vars.get_mut(i).unwrap();
+                e.0.set(e.1.clone());
+                self.dirty = true;
+                self.written.insert(*i);
+                cover("write-same-value-again");
             }
             Action::WriteSnd(i) => {
                 let e = self.pvars.get_mut(i).unwrap();
@@ -672,6 +930,7 @@ impl World {
                 e.0.set(nv.clone());
                 e.1 = nv;
                 self.dirty = true;
+                self.written.insert(*i);
                 cover("write-second-component-only");
             }
             Action::WriteBoth(i) => {
@@ -680,6 +939,7 @@ impl World {
                 e.0.set(nv.clone());
                 e.1 = nv;
                 self.dirty = true;
+                self.written.insert(*i);
             }
             Action::Observe(n) => {
                 let h = self.s_handle(*n).unwrap();
@@ -837,7 +1097,7 @@ impl World {
         let Spec::Bind { lhs, then, els } = &self.nodes[b].spec else { return None };
         let l = self.eval(*lhs, memo);
         Some(match if branch { then } else { els } {
-            Rhs::FreshMap(j) => app(rhs_fn(b, branch, 0), &[self.eval(*j, memo)]),
+            Rhs::FreshMap(j) | Rhs::FreshGarbage(j) => app(rhs_fn(b, branch, 0), &[self.eval(*j, memo)]),
             Rhs::FreshMapCap(j) => app(rhs_fn(b, branch, 0), &[l, self.eval(*j, memo)]),
             Rhs::FreshChain(j) => {
                 let a0 = app(rhs_fn(b, branch, 0), &[self.eval(*j, memo)]);
@@ -1079,6 +1339,10 @@ impl World {
                 }
             }
         }
+        if self.cfg.mon.c06 {
+            self.c06_after_stabilise(round, &log);
+        }
+        self.written.clear();
         self.audit(true);
     }
 
@@ -1153,6 +1417,18 @@ fn make_rhs(sh: &Rc<Shared>, ws: &WeakState, bind: usize, branch: bool, gen: u32
             sh.smuggled.borrow_mut().push((bind, branch, gen, 0, n.clone()));
             n
         }
+        Rhs::FreshGarbage(_) => {
+            let sh2 = sh.clone();
+            let tmp = h.unwrap().map(|y: &SV| y.clone());
+            drop(tmp);
+            cover("node-created-and-dropped-inside-bind-closure");
+            let n = h.unwrap().map(move |y| {
+                sh2.invoke(NodeKey::Rhs(bind, branch, gen, 0), vec![y.clone()]);
+                app(g0, &[y.clone()])
+            });
+            sh.smuggled.borrow_mut().push((bind, branch, gen, 0, n.clone()));
+            n
+        }
         Rhs::FreshMapCap(_) => {
             let sh2 = sh.clone();
             let cap = lhs.clone();
@@ -1208,6 +1484,9 @@ pub fn run_world(cfg: &WorldCfg) {
         }
         Err(msg) => {
             // the world is leaked: its engine state is not trusted after a panic
+            if msg.rsplit(" @ ").next().map_or(false, |loc| loc.starts_with("src/")) {
+                panic!("symx: harness panicked: {msg}");
+            }
             if cfg.mon.c04 {
                 violation(&format!("C04/panic/{}", panic_site(&msg)), msg.clone());
             }
